@@ -267,7 +267,7 @@ def _outer(db, chk, m, cls):
         r = runs[0]
         want = ["COMPUTATION", "COMMUNICATION"] + (["MEMORY"] if mem else [])
         tl = next((v for v in r.env.values() if isinstance(v, list) and v and all(isinstance(x, str) and x in ("COMPUTATION", "COMMUNICATION", "MEMORY", "OTHER") for x in v)), None)
-        chk.ob(rule, f"types analysed (include_memory_kernels={mem})", tl == want, where, found=tl, accepted=want)
+        chk.ob(rule, f"types analysed (include_memory_kernels={mem})", None if tl is None else tl == want, where, found=tl, accepted=want)
         if len(calls["type_time"]) == 1:
             pos, kw, node = calls["type_time"][0]
             gk = pos[0] if pos else kw.get("gpu_kernels")
@@ -277,8 +277,8 @@ def _outer(db, chk, m, cls):
             chk.ob(rule, f"[mem={mem}] kernel_type column = get_kernel_type of the decoded name", okk, m.loc(node), found=T.show(gk.col("kernel_type"))[:200] if isinstance(gk, Frame) else None,
                    accepted=T.show(kt)[:200])
             try:
-                tt = {sv: bool(T.evaluate(gk.rows, lambda leaf, sv=sv: sv if leaf == T.col(TR, "stream") else (_ for _ in ()).throw(T.Unknown(leaf)))) for sv in (-1, 1, 7)}
-                chk.ob(rule, f"[mem={mem}] rows analysed = device rows (truth table over stream)", tt == {-1: False, 1: True, 7: True}, m.loc(node), found=tt, accepted={-1: False, 1: True, 7: True})
+                tt = {sv: bool(T.evaluate(gk.rows, lambda leaf, sv=sv: sv if leaf == T.col(TR, "stream") else (_ for _ in ()).throw(T.Unknown(leaf)))) for sv in (-1, 0, 1, 7)}
+                chk.ob(rule, f"[mem={mem}] rows analysed = device rows: every stream except -1 (truth table incl. stream 0)", tt == {-1: False, 0: True, 1: True, 7: True}, m.loc(node), found=tt, accepted={-1: False, 0: True, 1: True, 7: True})
             except T.Unknown:
                 chk.ob(rule, f"[mem={mem}] device-row predicate reads only the stream column", False, m.loc(node), found=T.show(gk.rows)[:200], accepted="stream != -1")
             chk.ob(rule, f"[mem={mem}] type list passed to the sweep is the analysed list", (pos[1] if len(pos) > 1 else kw.get("kernel_type_to_analysis")) == want, m.loc(node),
@@ -297,8 +297,16 @@ def _outer(db, chk, m, cls):
             chk.ob(rule, f"[mem={mem}] {ty}: num_kernels / duration_ratio bound to the like-named parameters",
                    to_term(b.get("num_kernels")) == T.P("num_kernels") and to_term(b.get("duration_ratio")) == T.P("duration_ratio"), m.loc(node),
                    found={k: T.show(to_term(v))[:60] for k, v in b.items() if k != "gpu_kernel_time"}, accepted="num_kernels=num_kernels, duration_ratio=duration_ratio")
-        # type table aggregation and percentage
+        # per-kernel table: the aggregator's statistics reach the caller unchanged (only renamed)
         ret = r.ret
+        if isinstance(ret, PyTuple) and len(ret.items) == 2 and isinstance(ret.items[1], Frame):
+            AK = ret.items[1]
+            for src, dst in (("sum", "sum (us)"), ("max", "max (us)"), ("min", "min (us)"), ("mean", "mean (us)"), ("std", "stddev")):
+                lv = [x for x in leaves(AK.col(dst)) if x[0] != "coldata"]
+                want_l = [T.col(("aggr", i + 1), src) for i in range(len(want))]
+                chk.ob(rule, f"[mem={mem}] per-kernel column {dst!r} = the aggregator's {src!r}, unchanged", None if T.has_opaque(AK.col(dst)) else sorted(lv, key=repr) == sorted(want_l, key=repr), where,
+                       found=[T.show(x)[:80] for x in lv], accepted=[T.show(x) for x in want_l], why="a cast of the table to integer dtypes truncates the mean; any wrapper changes the reported statistic")
+        # type table aggregation and percentage
         if isinstance(ret, PyTuple) and isinstance(ret.items[0], Frame):
             KTD = ret.items[0]
             s = KTD.col("sum")
@@ -312,6 +320,9 @@ def _outer(db, chk, m, cls):
             if got[0] == "round":
                 got = got[1]
             check_term(chk, rule, f"[mem={mem}] percentage = sum / total * 100", where, got, [base])
+    sm = H.shared_state_mutations(m, f3)
+    chk.ob(rule, "the analysed type list is built afresh on every call (no mutation of a class- or module-level container)", not sm, where, found=sm, accepted="a list literal local to the call",
+           why="appending MEMORY to a shared default list makes every LATER call analyse memory kernels too")
     chk.floor(rule, 14)
     ta = db.mod("hta.trace_analysis")
     fac = ta.func("TraceAnalysis.get_gpu_kernel_breakdown")
